@@ -247,7 +247,21 @@ func runFaultJob(c *Ctl, job *Job, idx int, res *RunResult) {
 		res.Sample = map[string]interface{}{"world": w.Summary(), "config": w.ConfigMap()}
 	case "c04i":
 		// C04 with the real runner: parallel stages, also stages sharing one task
-		if idx%2 == 0 {
+		if idx%16 == 7 {
+			// a wide pipeline: 17..28 stages eligible at once
+			n := 17 + c.Ch.Choose(12, "wide-n")
+			w = &IntegWorld{Plans: map[string]*ExecPlan{}, Format: "raw"}
+			g := &GraphSpec{Name: "root"}
+			for i := 0; i < n; i++ {
+				nm := fmt.Sprintf("w%02d", i)
+				w.Tasks = append(w.Tasks, &TaskSpec{Name: nm, NCmd: 1})
+				g.Stages = append(g.Stages, &StageSpec{Name: nm})
+				w.Plans[execID(nm, "cmd", 0, "")] = &ExecPlan{DurMS: c.Ch.Choose(40, "dur")}
+			}
+			w.Graph = g
+			w.Drivers = []DriverSpec{{Kind: "pipeline", Target: "root"}}
+			c.Count("c04i_wide_worlds")
+		} else if idx%2 == 0 {
 			w = GenOverrideWorld(c.Ch, thorough)
 			w.Contexts = nil
 			for _, t := range w.Tasks {
@@ -296,6 +310,7 @@ func runFaultJob(c *Ctl, job *Job, idx int, res *RunResult) {
 	}
 	if prof.Checks["C12"] {
 		e.checkC12(x)
+		e.checkC14(x) // only the rules that hold under cancellation (up once / first, down once / last)
 	}
 	if prof.Checks["C14"] {
 		e.checkC14(x)
